@@ -2,6 +2,18 @@
 E = "crate::vk::"
 LW = "crate::enc::lzma2_writer::verif_kani::"
 MACROS = {
+    # BTreeMap reorder buffer by contract (kani/lib.rs map_any)
+    "MAP": [
+        "#[kani::stub(std::collections::BTreeMap::insert, %smap_insert_stub)]" % E,
+        "#[kani::stub(std::collections::BTreeMap::remove_entry, %smap_remove_entry_stub)]" % E,
+        "#[kani::stub(std::collections::BTreeMap::is_empty, %smap_is_empty_stub)]" % E,
+    ],
+    # mpsc result channel by contract (kani/lib.rs chan_any)
+    "CHAN": [
+        "#[kani::stub(std::sync::mpsc::Sender::send, %schan_send_stub)]" % E,
+        "#[kani::stub(std::sync::mpsc::Receiver::recv, %schan_recv_stub)]" % E,
+        "#[kani::stub(std::sync::mpsc::Receiver::try_recv, %schan_try_recv_stub)]" % E,
+    ],
     # error constructors -> kind-preserving stubs (see kani/lib.rs)
     "ERR": [
         "#[kani::stub(crate::error_invalid_data, %serr_invalid_data)]" % E,
